@@ -370,8 +370,9 @@ func (e *Env) PutTyped(name string, t *ref.Ty, v *ref.V) {
 
 func (e *Env) TypeEnv() *types.Env {
 	te := types.NewEnv()
+	memo := map[*ref.Ty]*types.Type{} // two names bound to one type object share its node
 	for _, n := range e.Names {
-		te.Put(n, ToType(e.T[n]))
+		te.Put(n, toTypeM(e.T[n], map[string]*types.Type{}, memo))
 	}
 	return te
 }
